@@ -722,7 +722,25 @@ func (w *World) safeLiveness() {
 			continue
 		}
 		safe, unsafe := false, false
-		for _, s := range t.states {
+		for si, s := range t.states {
+			if s.Safe && !safe && s.MerkleProof == nil {
+				// first-seen time and vouching are kept with the tx: the report is due once the delay has passed
+				// since the later of the two, or - if the node was not in sync then - shortly after it is again
+				var due int64 = t.times[0]
+				for _, a := range w.arrivals[n] {
+					if a.src == "T" && a.ready && a.at > due && a.at <= t.times[si] {
+						due = a.at
+						break
+					}
+				}
+				due += int64(delay)
+				if w.lastUnsync > due {
+					due = w.lastUnsync
+				}
+				if late := t.times[si] - due; late > int64(1200*time.Millisecond)+w.slack && restarted {
+					w.fail("C07", "safe-eventually", "safe reported long after first seen + delay (delivered before a clean restart)", fmt.Sprintf("tx %s: first seen at %d ms, delay %d ms, node back in sync at %d ms, safe reported at %d ms", n, t.times[0]/1e6, delay/1e6, w.lastUnsync/1e6, t.times[si]/1e6))
+				}
+			}
 			if s.Safe {
 				safe = true
 			}
